@@ -786,7 +786,12 @@ impl SymbolicBDD {
                     }
                 }
             } else if let Some(number) = c.name("countable") {
-                let parsed_number = number.as_str().parse().expect("Failed to parse number");
+                let parsed_number = number.as_str().parse().map_err(|e| {
+                    io::Error::new(
+                        io::ErrorKind::InvalidData,
+                        format!("Failed to parse number {}: {e}", number.as_str()),
+                    )
+                })?;
                 result.push(SymbolicBDDToken::Countable(parsed_number));
             } else if c.name("eof").is_some() {
                 result.push(SymbolicBDDToken::Eof);
